@@ -255,3 +255,154 @@ def declaration(x):
     if beanquery.apilevel != '2.0' or beanquery.paramstyle != 'pyformat':
         return 'dbapi-attributes'
     return 'ok'
+
+
+# ---------------------------------------------------------------------------
+# C20.preempt: one preemption at line granularity
+
+import os as _os
+import sys as _sys
+
+_REPO_DIR = _os.path.dirname(_os.path.dirname(_os.path.abspath(beanquery.__file__))) + _os.sep
+_PARSER_PY = _os.path.join('beanquery', 'parser', 'parser.py')
+
+PREEMPT_STATEMENTS = {
+    'maxwidth40': ('SELECT date, maxwidth(narration, 40) AS n', None),
+    'maxwidth16': ('SELECT account, maxwidth(narration, 16) AS n WHERE number > 0', None),
+    'baddate': ('SELECT date, narration WHERE date = 2024-02-30', None),
+    'trivial': ('SELECT 1 + 1 AS two LIMIT 1', None),
+    'balance': ('SELECT account, balance, number, balance AS b2', None),
+    'aggregate': ('SELECT account, count(*) AS n, sum(number) AS s, last(narration) AS l GROUP BY account ORDER BY account', None),
+    'params': ('SELECT %s AS p, account, other_accounts WHERE number > %s', (7, D('0'))),
+    'params2': ('SELECT %s AS p, account, other_accounts WHERE number > %s', (9, D('-100'))),
+    'period': ("SELECT date, account FROM year = 2019 CLOSE ON 2019-01-15 WHERE account IN (SELECT account FROM #postings WHERE number > 100)", None),
+    'journal': ('JOURNAL "Assets" AT units', None),
+    'balances': ('BALANCES AT cost FROM year = 2019', None),
+    'transactions': ('SELECT count(*) AS n, last(narration) AS l FROM #transactions', None),
+    'transactions2': ('SELECT date, narration, flag FROM #transactions', None),
+    'distinct': ('SELECT DISTINCT flag, maxwidth(narration, 12) AS m ORDER BY flag', None),
+}
+
+
+def preempt_ledger():
+    entries = small_ledger(0)
+    long_one = ledger.txn(datetime.date(2019, 2, 3), [ledger.posting('Expenses:Food', D('30.00'), 'USD'),
+                                                     ledger.posting('Assets:Bank', D('-30.00'), 'USD')],
+                          narration='a monthly payment with a narration that is long enough to be cut at both widths', lineno=23)
+    return entries + [long_one]
+
+
+def _outcome(conn, stmt):
+    text, params = stmt
+    try:
+        cur = conn.cursor()
+        cur.execute(text, params)
+        return 'rows', [(c.name, c.datatype) for c in cur.description], cur.fetchall()
+    except beanquery.ParseError as exc:
+        info = exc.parseinfo
+        return 'ParseError', str(exc), (info.pos, info.endpos, info.line, info.tokenizer.text)
+    except Exception as exc:        # noqa
+        return type(exc).__name__, str(exc)
+
+
+def _trace_points(stmt, with_parser, occurrences=2):
+    """Line events of the statement's execution inside the tree under test: indexes of the first (and second) occurrence
+    of every distinct code location."""
+    events = []
+
+    def tracer(frame, event, arg):
+        filename = frame.f_code.co_filename
+        if not filename.startswith(_REPO_DIR) or (not with_parser and filename.endswith(_PARSER_PY)):
+            return None
+        if event == 'line':
+            events.append((filename, frame.f_lineno))
+        return tracer
+
+    def run():
+        _sys.settrace(tracer)
+        try:
+            _outcome(ledger.connect(preempt_ledger(), ledger.default_options()), stmt)
+        finally:
+            _sys.settrace(None)
+    t = threading.Thread(target=run)
+    t.start()
+    t.join()
+    seen, points = {}, []
+    for k, loc in enumerate(events):
+        seen[loc] = seen.get(loc, 0) + 1
+        if seen[loc] <= occurrences:
+            points.append(k)
+    return points, len(events)
+
+
+def _preempted(stmt_a, stmt_b, k, shared, with_parser):
+    """Run A until its k-th line event, run B to completion in another thread, resume A."""
+    conn_a = ledger.connect(preempt_ledger(), ledger.default_options())
+    conn_b = conn_a if shared else ledger.connect(preempt_ledger(), ledger.default_options())
+    out = {}
+    count = [0]
+
+    def tracer(frame, event, arg):
+        filename = frame.f_code.co_filename
+        if not filename.startswith(_REPO_DIR) or (not with_parser and filename.endswith(_PARSER_PY)):
+            return None
+        if event == 'line':
+            if count[0] == k:
+                tb = threading.Thread(target=lambda: out.__setitem__('b', _outcome(conn_b, stmt_b)))
+                tb.start()
+                tb.join()
+            count[0] += 1
+        return tracer
+
+    def run_a():
+        _sys.settrace(tracer)
+        try:
+            out['a'] = _outcome(conn_a, stmt_a)
+        finally:
+            _sys.settrace(None)
+    ta = threading.Thread(target=run_a)
+    ta.start()
+    ta.join()
+    return out.get('a'), out.get('b')
+
+
+def _preempt_check(name_a, name_b, shared, with_parser):
+    stmt_a, stmt_b = PREEMPT_STATEMENTS[name_a], PREEMPT_STATEMENTS[name_b]
+    serial_a = _outcome(ledger.connect(preempt_ledger(), ledger.default_options()), stmt_a)
+    serial_b = _outcome(ledger.connect(preempt_ledger(), ledger.default_options()), stmt_b)
+    points, total = _trace_points(stmt_a, with_parser, 2 if _os.environ.get('VERIF_TIER') == 'thorough' else 1)
+    if with_parser:
+        points = points[::7]
+    for k in points:
+        got_a, got_b = _preempted(stmt_a, stmt_b, k, shared, with_parser)
+        if got_b is None:
+            continue                    # the execution took another path and ended before the k-th line
+        if got_a != serial_a:
+            return f'suspended-statement-differs-from-serial (line event {k} of {total})'
+        if got_b != serial_b:
+            return f'preempting-statement-differs-from-serial (line event {k} of {total})'
+    return 'ok'
+
+
+def make_preempt(name_a, name_b, with_parser=False, quick=300, thorough=600):
+    @cond(f'C20.preempt.{name_a}-{name_b}', quick=quick, thorough=thorough,
+          bounds=f'two threads, separate or shared connection: "{PREEMPT_STATEMENTS[name_a][0][:60]}" is suspended once, at the first '
+                 f'(thorough tier: also the second) occurrence of any source line of the tree under test it executes (compilation and execution'
+                 + (', every 7th such point inside the generated parser too' if with_parser else '; lines of the generated parser '
+                    'excluded') + f'), "{PREEMPT_STATEMENTS[name_b][0][:60]}" then runs to completion and the first one '
+                 'resumes: both outcomes (rows and description, or the error with its location) equal serial execution',
+          symbolic='connection sharing', enumerated='preemption point (looped natively inside one path; the solver is not involved)',
+          params={'shared': bool}, group='C20.preempt', per_path_timeout=3000,
+          note='single-preemption schedules at line granularity (sys.settrace in the suspended thread); schedules with two or '
+               'more preemptions at this granularity are outside the bound (the switch-point schedules of C20.pair are the '
+               'multi-switch family)')
+    def preempt(shared):
+        return native(_preempt_check, name_a, name_b, bool(shared), with_parser)
+
+
+_QUICK_PREEMPT = [('maxwidth40', 'maxwidth16'), ('balance', 'balance'), ('aggregate', 'params'), ('period', 'balance'),
+                  ('journal', 'balances'), ('transactions2', 'transactions')]
+for _a, _b in _QUICK_PREEMPT + [('maxwidth16', 'distinct'), ('aggregate', 'aggregate'), ('params', 'params2'), ('balances', 'journal')]:
+    make_preempt(_a, _b, quick=300 if (_a, _b) in _QUICK_PREEMPT else None, thorough=900)
+make_preempt('baddate', 'trivial', with_parser=True)
+make_preempt('trivial', 'baddate', with_parser=True)
